@@ -4,7 +4,9 @@ CONSTANTS
   RollAt = 2
   NDel = 2
   NCons = 1
+  NGet = 1
+  MaxDel = 2
   FixStale = TRUE
 VIEW view
-INVARIANTS Emit
+INVARIANTS QuiescentOK HeadFlagOK Emit
 CHECK_DEADLOCK FALSE
